@@ -278,26 +278,30 @@ func (o *overlayer) overlayInterface(base, overlay reflect.Value) error {
 		return fmt.Errorf("error overlaying %s (%s) onto interface(%s); overlay doesn't implement interface-type",
 			overlay.Elem().Kind(), overlay.Elem().Type(), base.Type())
 	case reflect.Array:
+		// The overlay is already a private deep copy of the source's value
+		// (see compose); copying it again here would duplicate everything
+		// it references and split what it shares with the rest of the
+		// source's value.
 		out := reflect.New(overlay.Type())
 		if !base.IsNil() {
 			if base.Elem().Type() == overlay.Type() {
-				o.dc.deepCopyArray(overlay, out.Elem())
+				out.Elem().Set(overlay)
 				base.Set(out.Elem())
 				return nil
 			}
 			if base.Elem().Type() == reflect.PtrTo(overlay.Type()) {
-				o.dc.deepCopyArray(overlay, out.Elem())
+				out.Elem().Set(overlay)
 				base.Set(out)
 				return nil
 			}
 		}
 		if overlay.Type().Implements(base.Type()) {
-			o.dc.deepCopyArray(overlay, out.Elem())
+			out.Elem().Set(overlay)
 			base.Set(out.Elem())
 			return nil
 		}
 		if reflect.PtrTo(overlay.Type()).Implements(base.Type()) {
-			o.dc.deepCopyArray(overlay, out.Elem())
+			out.Elem().Set(overlay)
 			base.Set(out)
 			return nil
 		}
